@@ -22,6 +22,7 @@ def main(tier):
     if tier == "thorough":
         rng.rotation_identity(P, rep, grains_funcs)
     rng.size_normalisation(P, rep, grains_funcs)
+    rng.broadcast_single_value(P, rep)
     rep.explanation = ("Entropy discipline over the whole library (banned sources, every draw on the world's engine, engine "
                        "written only at construction and by the file's seed entry), effect analysis (the RNG draw is the only "
                        "state a query touches), index agreement of per-composition tables, size normalisation shape; thorough "
